@@ -3,7 +3,7 @@
 From Verif Require Import Base.Prelude Model.Tree Model.Spec Model.Rewrite Model.ParseLit Model.CharClass Model.Parser
   Model.FinalOpt
   Proofs.SpecProofs Proofs.SpecBoundsProofs Proofs.RewriteProofs
-  Proofs.FinalOptDen Proofs.FinalOptK Proofs.FinalOptLink Proofs.FinalOptLeaf Proofs.FinalOptWalk.
+  Proofs.FinalOptDen Proofs.FinalOptK Proofs.FinalOptPrune Proofs.FinalOptLink Proofs.FinalOptLeaf Proofs.FinalOptWalk.
 From Coq Require Import ZifyBool.
 
 Ltac fam_unfold := unfold fam, is_one_family, is_notone_family, is_set_family, is_oneloop_family, is_notoneloop_family,
@@ -201,6 +201,41 @@ Proof.
   - exact HKN.
 Qed.
 
+(* the same from EVERY state: the states a greedy loop no longer stops at once atomic have a next character that
+   passes its test *)
+Lemma early_NQ L k l c : lk_of (n_t L) = Some (k, l) -> ltr (n_o L) -> 0 <= n_m L ->
+  (forall x, char_test e k c x = rtest cat_in L x) ->
+  forall s j, n_m L <= j < loop_run e k (n_o L) c (n_n L) s -> NQ cat_in e L (loop_state (n_o L) s j).
+Proof.
+  intros Hlk Hl Hm Ht s j [Hj1 Hj2].
+  unfold loop_run in Hj2. cbv zeta in Hj2.
+  set (cap := if n_n L =? INF then avail e (n_o L) (pos s) else Z.min (n_n L) (avail e (n_o L) (pos s))) in *.
+  unfold loop_state. rewrite (ltr_dir _ Hl).
+  pose proof (run_len_char e k c (n_o L) (Z.to_nat cap) (pos s) j ltac:(lia)) as Hj.
+  rewrite (ltr_dir _ Hl), (ltr_avail e _ _ Hl), (ltr_next e _ _ Hl) in Hj. apply andb_prop in Hj. destruct Hj as [Hja Hjt].
+  unfold FinalOptLeaf.NQ. cbn [pos with_pos]. split; [lia|]. rewrite <- Ht. exact Hjt.
+Qed.
+
+Lemma mla_hpr L : fo_is_charloop (n_t L) = true -> node_ok L -> ltr (n_o L) ->
+  forall s, hpr (NQ cat_in e L) (den (tr L) s) (den (tr (make_loop_atomic L)) s).
+Proof.
+  intros Ht Hok Hl s. rewrite (mla_greedy L Ht).
+  assert (Hf : fam (n_t L) = true) by (unfold fo_is_charloop, T_Oneloop, T_Notoneloop, T_Setloop in Ht; fam_unfold; lia).
+  assert (Hcases : n_t L = 3 \/ n_t L = 4 \/ n_t L = 5) by (unfold fo_is_charloop, T_Oneloop, T_Notoneloop, T_Setloop in Ht; lia).
+  assert (exists k, lk_of (n_t L) = Some (k, LGreedy) /\ lk_of (n_t L + 40) = Some (k, LAtomic)) as (k & Hlk & Hlk').
+  { destruct Hcases as [E|[E|E]]; rewrite E; cbn; eexists; split; reflexivity. }
+  destruct (loop_facts L Hf Hok k LGreedy Hlk) as (Etr & Htest & Hm).
+  rewrite Etr, (tr_set_t_loop L _ k LAtomic Hlk').
+  rewrite !fd_den_charloop, !sem_charloop_unfold. cbv zeta.
+  set (c := match k with CSet => tr_set sid (n_set L) | _ => n_ch L end) in *.
+  destruct (loop_run e k (n_o L) c (n_n L) s <? n_m L) eqn:Er; [apply hpr_refl|].
+  set (r := loop_run e k (n_o L) c (n_n L) s) in *.
+  rewrite (count_down_cons r (n_m L)) by lia. cbn [map]. split; [|reflexivity].
+  apply drops_keep. rewrite <- (app_nil_r (map _ _)). apply drops_all; [|constructor].
+  rewrite Forall_forall. intros a Ha. apply in_map_iff in Ha. destruct Ha as (j & <- & Hj).
+  apply count_down_in in Hj. apply (early_NQ L k LGreedy c Hlk Hl Hm Htest). fold r. lia.
+Qed.
+
 Lemma leaf_step_lazy L : fo_is_charlazy (n_t L) = true -> node_ok L -> ltr (n_o L) ->
   forall KN, KD (PQ L) KN -> HK KN (tr L) (tr (make_loop_atomic (set_t L (n_t L - (T_Onelazy - T_Oneloop))))).
 Proof.
@@ -370,7 +405,8 @@ Lemma body_last_sound (k : rnode -> rnode -> res (option rnode)) :
     (node_ok l' -> node_ok body') /\
     (forall P, pos_only P -> (forall K, goodK P K -> HK K (tr lastc) (tr l')) -> forall K, goodK P K -> HK K (tr body) (tr body')) /\
     (forall a, den (tr first) a = [] -> den (tr body) a = []) /\
-    (forall a, den (tr first) a = [] -> den (tr body') a = []).
+    (forall a, den (tr first) a = [] -> den (tr body') a = []) /\
+    (forall P, pos_only P -> (forall s, hpr P (den (tr lastc) s) (den (tr l') s)) -> forall s, hpr P (den (tr body) s) (den (tr body') s)).
 Proof.
   induction body as [t o ch m n str st kids IHk] using rnode_ind'. intros body' H Hok.
   cbn [fo_body_last] in H.
@@ -385,16 +421,19 @@ Proof.
     { destruct (kids_one body ltac:(cbn; unfold T_Capture in *; lia) (proj1 Hok)) as [k0 Hk0]. cbn in Hk0. injection Hk0 as _ ->. reflexivity. }
     subst cs. inversion IHk as [|? ? IH0 _]; subst.
     assert (Hc : node_ok c) by (apply (node_ok_kid sets body); [exact Hok | left; reflexivity]).
-    destruct (IH0 c' Er Hc) as (first & lastc & l' & Hk & Hf & Hl & Hokb & HHK & Hd & Hd').
+    destruct (IH0 c' Er Hc) as (first & lastc & l' & Hk & Hf & Hl & Hokb & HHK & Hd & Hd' & Hpr).
     exists first, lastc, l'. split; [exact Hk|]. split; [exact Hf|]. split; [exact Hl|].
     assert (Etr : tr body = NCapture o m n (tr c)) by (apply tr_capture; [unfold body; cbn; unfold T_Capture in *; lia | reflexivity]).
     assert (Etr' : tr (RN t o ch m n str st [c']) = NCapture o m n (tr c')) by (apply tr_capture; [cbn; unfold T_Capture in *; lia | reflexivity]).
-    split; [|split; [|split]].
+    split; [|split; [|split; [|split]]].
     - intros Hl'. apply (node_ok_set_kids body [c'] Hok eq_refl). constructor; [apply Hokb; exact Hl'|constructor].
     - intros P HP Hleaf K HK. rewrite Etr, Etr'. replace n with (-1) by lia. apply HK_capture. intros s Hs.
       apply (HHK P HP Hleaf); [|exact Hs]. apply goodK_kcap; assumption.
     - intros a Ha. rewrite Etr, fd_den_capture, (Hd a Ha). reflexivity.
-    - intros a Ha. rewrite Etr', fd_den_capture, (Hd' a Ha). reflexivity. }
+    - intros a Ha. rewrite Etr', fd_den_capture, (Hd' a Ha). reflexivity.
+    - intros P HP Hleaf s. rewrite Etr, Etr', !fd_den_capture. replace n with (-1) by lia.
+      apply hpr_flat_map_single; [|apply (Hpr P HP Hleaf)].
+      intros a. unfold capture_close. cbn. eexists. split; [reflexivity|]. apply HP. reflexivity. }
   destruct (t =? T_Concatenate) eqn:Econ; [|discriminate].
   destruct kids as [|first krest] eqn:Ekids; [discriminate|].
   destruct (rev (first :: krest)) as [|lastc rpre] eqn:Erev; [discriminate|].
@@ -413,7 +452,7 @@ Proof.
   { rewrite (tr_concat sid) by (cbn; unfold T_Concatenate in *; lia). cbn [n_o n_kids]. rewrite map_app. reflexivity. }
   assert (Hfirst_in : forall x, tr (RN t o ch m n str st (x)) = tr (RN t o ch m n str st x)) by reflexivity.
   assert (Hhd : exists tl, rev rpre ++ [lastc] = first :: tl) by (exists krest; symmetry; exact Erev).
-  split; [|split; [|split]].
+  split; [|split; [|split; [|split]]].
   - intros Hl'. apply (node_ok_set_kids body (rev rpre ++ [l']) Hok).
     + unfold body. cbn [n_kids]. rewrite Erev, !app_length. reflexivity.
     + apply Forall_app. split; [exact Hpre | constructor; [exact Hl'|constructor]].
@@ -430,6 +469,8 @@ Proof.
       cbn [app] in Erev. injection Erev as Ekr. subst krest.
       unfold fo_arity_ok in Har. replace t with 25 in Har by (unfold T_Concatenate in *; lia). cbn in Har. discriminate.
     + cbn [app] in Htl. injection Htl as -> _. cbn [app map]. rewrite fd_den_concat. cbn [den_seq]. rewrite Ha. reflexivity.
+  - intros P HP Hleaf s. rewrite Etr, Etr', !fd_den_concat, !fd_den_seq_app. apply hpr_flat_map_same.
+    intros a. cbn [den_seq]. rewrite !flat_map_single. apply Hleaf.
 Qed.
 
 Lemma wf_loop_bounds x : fo_wf x = true -> n_t x = 26 \/ n_t x = 27 -> 0 <= n_m x <= n_n x.
@@ -568,7 +609,7 @@ Proof.
           destruct (cbma_sound cat_in isw isew sid e sets Henv strict Hs0 Hs1 Hs2 f lastc sub c true false false E2 Hl Hsub Hc)
             as [HD|(_ & _ & HT)]; [left; apply (proj1 (HA lastc)); exact HD | right; apply (proj2 (HA lastc)); exact HT].
       - split; [exact Hl|]. split; [exact Hfirst|]. split; [intros; apply HK_refl | intros; left; reflexivity]. }
-    destruct (body_last_sound k0 b b' Er Hb) as (first & lastc & l' & Hk & Hf & Hl & Hokb & HHK & Hd & Hd').
+    destruct (body_last_sound k0 b b' Er Hb) as (first & lastc & l' & Hk & Hf & Hl & Hokb & HHK & Hd & Hd' & _).
     destruct (Hk0 first lastc l' Hk Hf Hl) as (Hl' & Hfirst & Hleaf & Hgood).
     assert (Hb' : node_ok b') by (apply Hokb; exact Hl').
     destruct (set_kids_fields node [b']) as (Ht' & Ho' & _ & Hm' & Hn' & _ & _ & Hk2).
